@@ -169,6 +169,13 @@ def generate(rng, tier, cls):
             ops.append({'op': 'add_file', 'tree': tn, 'change': ci,
                         'attrs': fattrs})
 
+    if rng.chance(0.25):
+        # the tree as a loader returns it (written and parsed back): option
+        # values are then run-time strings, not the caller's literals
+        ops.append({'op': 'parse', 'tree': tn, 'from': tn,
+                    'via': rng.choice(['from_bytes', 'from_stream',
+                                       'shared_reader'])})
+
     for _ in range(rng.randint(2, 8)):
         k = rng.below(10)
 
